@@ -79,9 +79,16 @@ def run(ctx):
                 st = None
             # ---- the property's oracle on the implementation
             bad = None
+            if intree and r.cls == '0' and destk == 'absent':
+                for dd in ('D', 'D/sub'):
+                    dm = stat.S_IMODE(os.lstat(f'{root}/{dd}').st_mode)
+                    if dm != (0o777 & ~umask):
+                        bad = f'directory {dd} created beside the node has mode {oct(dm)}, not 0777 & ~umask'
             want_mode = mode & ~umask & 0o7777
             fmt = {'fifo': stat.S_IFIFO, 'sock': stat.S_IFSOCK, 'chr': stat.S_IFCHR, 'blk': stat.S_IFBLK}[kind]
-            if kind == 'blk':
+            if bad:
+                pass
+            elif kind == 'blk':
                 if r.cls == '0': bad = 'a block device did not make the run fail'
             elif r.cls == '0':
                 if st is None or stat.S_IFMT(st.st_mode) != fmt: bad = f'destination is not a {kind}'
